@@ -49,6 +49,10 @@ fn binop_case(op: &str, a: &Value, b: &Value, bucket: &str) -> Case {
     if let (Some(la), Some(lb)) = (literal(a), literal(b)) {
         lines.push(format!("eval 0 ro s value {}", xarg(&format!("{} {} {}", la, op, lb))));
     }
+    if matches!(op, "+" | "-" | "*" | "/" | "%" | "^" | "&&" | "||") {
+        // the compound form: `c op= b` computes exactly `c op b` (and stores it if the type is unchanged)
+        lines.push(format!("eval 0 mut s value {}", xarg(&format!("c = a; c {}= b; c", op))));
+    }
     let mut drv = lines.clone();
     drv.push(format!("spec.binop {} {} {}", xarg(op), enc_value(a), enc_value(b)));
     Case {
@@ -167,6 +171,25 @@ impl Property for C03 {
                 continue;
             }
             let r = &out.impl_resp[i];
+            if case.impl_lines[i].contains(" mut ") {
+                // compound form: the operator's result, stored only if it has the type of the variable's old value
+                // (HashMapContext is type safe, C04); an Empty left operand cannot even be copied into `c` by `c = a`… it can
+                let a_kind = case.impl_lines[1].rsplit(' ').next().unwrap_or("?").chars().next().unwrap_or('?');
+                let ok = match reference.strip_prefix("value-or-arith ").or(reference.strip_prefix("value ")) {
+                    Some(v) if v.starts_with(a_kind) => meets(r, reference),
+                    Some(_) => class_of(eval_result(r)) == "type" || (reference.starts_with("value-or-arith") && class_of(eval_result(r)) == "arith"),
+                    None => meets(r, reference),
+                };
+                if !ok {
+                    return Verdict::SpecViolation(format!(
+                        "`{}` gives `{}`, but `a {} b` is `{}` (a compound assignment computes the plain operator and stores a result of the variable's type)",
+                        crate::codec::unx(case.impl_lines[i].rsplit(' ').next().unwrap()), eval_result(r), case.bucket.split(':').nth(1).unwrap_or("?"), reference));
+                }
+                if !same_value_or_class(r, &out.drv_resp[i]) {
+                    return Verdict::ModelMismatch(format!("impl `{}` model `{}`", eval_result(r), eval_result(&out.drv_resp[i])));
+                }
+                continue;
+            }
             if !meets(r, reference) {
                 return Verdict::SpecViolation(format!("`{}` gives `{}`, the reference demands `{}`", crate::codec::unx(case.impl_lines[i].rsplit(' ').next().unwrap()), eval_result(r), reference));
             }
